@@ -58,9 +58,11 @@ using std::size_t;
 
 
 // The maximum number of digits that sprintf can put in a buffer.
-// 100 for now.  We're using this because we want to avoid transcoding
-// number strings when we don't have to,
-const size_t    MAX_PRINTF_DIGITS = 100;
+// We're using this because we want to avoid transcoding
+// number strings when we don't have to.  The largest double
+// has 309 digits before the decimal point, and we print up to
+// 35 after it, plus a sign and the decimal point.
+const size_t    MAX_PRINTF_DIGITS = 350;
 
 // The maximum number of characters for a floating point number.
 const size_t    MAX_FLOAT_CHARACTERS = 100;
